@@ -193,7 +193,7 @@ theorem recoverR_onDisk (cfg : Cfg) (h : cfg.failedRecordLeavesNoTrace = true) (
     lookup_map_snd' d.manifests (fun _ f => (⟨f.all.filter (fun r => !r.torn), []⟩ : LogFile MRec)) m
   rw [e1, e2, e3, e4]
   cases d.current with
-  | none => simp only; split <;> rfl
+  | none => simp only; split <;> split <;> rfl
   | some m =>
     simp only [e5]
     cases lookup d.manifests m with
